@@ -5,42 +5,7 @@ import (
 	"github.com/flowmatters/openwater-core/io"
 	"github.com/flowmatters/openwater-core/sim"
 	"github.com/flowmatters/openwater-core/zzverif/vsym"
-	"gonum.org/v1/hdf5"
 )
-
-func c07write2(fn, ds string, a data.ND2Float64) {
-	vsym.Assume((io.H5RefFloat64{Filename: fn, Dataset: ds}).Write(a) == nil)
-}
-func c07write3(fn, ds string, a data.ND3Float64) {
-	vsym.Assume((io.H5RefFloat64{Filename: fn, Dataset: ds}).Write(a) == nil)
-}
-func c07sym2(tag string, n, m int) data.ND2Float64 {
-	a := data.NewArray2DFloat64(n, m)
-	for i := 0; i < n; i++ {
-		for j := 0; j < m; j++ {
-			a.Set2(i, j, vsym.Float64(tag))
-		}
-	}
-	return a
-}
-func c07sym3(tag string, n, m, k int) data.ND3Float64 {
-	a := data.NewArray3DFloat64(n, m, k)
-	for i := 0; i < n; i++ {
-		for j := 0; j < m; j++ {
-			for t := 0; t < k; t++ {
-				a.Set3(i, j, t, vsym.Float64(tag))
-			}
-		}
-	}
-	return a
-}
-func c07batches(fn, model string, b []int32) {
-	a := data.NewArrayInt32([]int{len(b)})
-	for i, v := range b {
-		a.Set([]int{i}, v)
-	}
-	vsym.Assume((io.H5RefInt32{Filename: fn, Dataset: "/MODELS/" + model + "/batches"}).Write(a) == nil)
-}
 
 // H_C07_run_simulation: the real run_simulation on a three-generation graph held in the HDF5
 // model: generations 0 and 1 have one Simhyd node each (so node index and index within the generation differ), generation 2 one Muskingum node whose inflow input
@@ -50,46 +15,24 @@ func c07batches(fn, model string, b []int32) {
 // outputs and final states (and final inputs of the Muskingum node) of the sequential reference:
 // generations in order, input = stored + sum of linked outputs, each node run once.
 // The goroutines (per-model runs, asynchronous writer) are executed in ONE sequentialised
-// schedule (writer of generation g runs as soon as it is spawned); other schedules are outside
-// this harness.
+// schedule (writer of generation g runs as soon as it is spawned); for the other schedules the
+// engine's happens-before analysis (vector clocks over go, send->receive, unlock->lock) shows that
+// no two conflicting memory accesses of different goroutines are unordered, so every interleaving
+// with the same synchronisation pairing computes the same memory contents.  Schedules in which
+// a writer receives another generation's token first (the put-back-and-sleep path) are outside.
 //vsym:prop=C07 tier=quick ints=int floats=real timeout=60 maxruns=200
 func H_C07_run_simulation() {
-	hdf5.Reset()
-	vsym.Summarise("NoKernelImplicit")
-	fn, out := "model.h5", "out.h5"
-	T := 1
-	hdf5.PutText(fn, "/META/models", []string{"Simhyd", "Muskingum"}, 16)
-	hdf5.MakeGroup(fn, "/DIMENSIONS")
-	c07batches(fn, "Simhyd", []int32{1, 2, 2})
-	c07batches(fn, "Muskingum", []int32{0, 0, 1})
-	sp, ss, si := c07sym2("sp", 9, 2), c07sym2("ss", 2, 3), c07sym3("si", 2, 2, T)
-	for c := 0; c < 2; c++ {
-		vsym.Assume(sp.Get2(8, c) > 0)
-	}
-	mp, ms, mi := c07sym2("mp", 3, 1), c07sym2("ms", 1, 3), c07sym3("mi", 1, 2, T)
-	vsym.Assume(2*mp.Get2(0, 0)*(1-mp.Get2(1, 0))+mp.Get2(2, 0) > 0)
-	c07write2(fn, "/MODELS/Simhyd/parameters", sp)
-	c07write2(fn, "/MODELS/Simhyd/states", ss)
-	c07write3(fn, "/MODELS/Simhyd/inputs", si)
-	c07write2(fn, "/MODELS/Muskingum/parameters", mp)
-	c07write2(fn, "/MODELS/Muskingum/states", ms)
-	c07write3(fn, "/MODELS/Muskingum/inputs", mi)
-	// links: (srcGen, srcModel, srcNode, srcGenNode, srcVar, dstGen, dstModel, dstNode, dstGenNode, dstVar)
-	rows := [][]uint32{
-		{0, 0, 0, 0, 0, 2, 1, 0, 0, 0}, // Simhyd node 0 (generation 0) runoff   -> Muskingum inflow
-		{1, 0, 1, 0, 0, 2, 1, 0, 0, 0}, // Simhyd node 1 (generation 1, first of its batch) runoff -> Muskingum inflow
-		{1, 0, 1, 0, 2, 2, 1, 0, 0, 1}, // Simhyd node 1 baseflow -> Muskingum lateral
-	}
-	links := data.NewArrayUint32([]int{len(rows), 10})
-	for i, r := range rows {
-		for j, v := range r {
-			links.Set([]int{i, j}, v)
-		}
-	}
-	vsym.Assume((io.H5RefUint32{Filename: fn, Dataset: "/LINKS"}).Write(links) == nil)
-
+	g := c07makeGraph(false)
+	fn, out, T, sp, ss, si, mp, ms, mi := g.fn, g.out, g.T, g.sp, g.ss, g.si, g.mp, g.ms, g.mi
+	_ = fn
+	vsym.LogStart()
 	run_simulation([]string{fn, out})
+	vsym.LogStop()
 	vsym.Reach("simulated")
+	// every scheduling with the same send/receive and lock pairing: conflicting accesses of the
+	// main loop, the per-model run goroutines, the per-cell goroutines inside Run and the writer
+	// goroutines are ordered by go / channel / lock edges
+	vsym.AssertNoRacesHB("fact:conflicting-accesses-ordered-by-go-or-channel-edges-or-a-common-lock")
 
 	// sequential reference
 	sh := sim.Catalog["Simhyd"]()
